@@ -3,6 +3,7 @@ package simhook
 import (
 	"fmt"
 	"os"
+	"runtime"
 	"sync"
 	"syscall"
 	"time"
@@ -30,6 +31,7 @@ type Sched struct {
 	wg      sync.WaitGroup
 
 	Steps      int
+	Foreign    int // yield points reached by goroutines that are not tasks
 	Yields     uint64
 	Switches   int
 	SeqHash    uint64 // digest of the (task, yield-site) sequence
@@ -53,6 +55,7 @@ type Task struct {
 	done     bool
 	started  bool
 	LastSite int
+	goid     uint64
 	Panic    interface{}
 	waitKind int
 	waitArg  int
@@ -78,10 +81,33 @@ func Yield(site int) {
 		return
 	}
 	t := s.tasks[s.cur]
+	if curGoid() != t.goid {
+		// a goroutine started by the code under test itself (none exists on the
+		// unchanged tree): it is not a task, it runs freely and must never take
+		// part in the baton protocol
+		s.quantum = 1
+		s.Foreign++
+		return
+	}
 	t.LastSite = site
 	s.inSched = true
 	rawWrite(s.ctlW, 'y')
 	rawRead(t.r)
+}
+
+// curGoid reads the current goroutine's id from the first line of its stack
+// trace ("goroutine 123 [running]:"). It is called only when a task is about to
+// park, never on the fast path.
+//
+//go:norace
+func curGoid() uint64 {
+	var buf [48]byte
+	n := runtime.Stack(buf[:], false)
+	var id uint64
+	for i := len("goroutine "); i < n && buf[i] >= '0' && buf[i] <= '9'; i++ {
+		id = id*10 + uint64(buf[i]-'0')
+	}
+	return id
 }
 
 // WaitOn parks the calling task until the scheduler's Ready(kind, arg) holds.
@@ -181,6 +207,7 @@ func (s *Sched) Add(fn func(t *Task)) *Task {
 //go:norace
 func (s *Sched) taskMain(t *Task) {
 	defer s.wg.Done()
+	t.goid = curGoid()
 	rawRead(t.r)
 	defer s.taskDone(t)
 	t.Fn(t)
